@@ -757,6 +757,20 @@ def rule_composite(ctx):
         c = fn["crate"]
         r = Render(c)
         key = fn_key(fn)
+        # every member is consulted: the arg-max over the one-vs-all members is not left before the last member (a member
+        # seen later may still beat the incumbent of a row; a batch-level "everybody is confident" test makes a row's label
+        # depend on the other rows of the batch)
+        res.instance("%s : every member consulted" % key)
+        from .c17 import for_loops as _for_loops
+        early = None
+        from .c17 import explicit_exits as _explicit_exits
+        for it_, pat_, body_, node_ in _for_loops(fn["body"]):
+            for y in _explicit_exits(body_, c):
+                early = y
+        if early is not None:
+            res.violate("%s : member-loop-left-early" % key, "the loop over the member models is left with `%s` before every member has been compared: a later member can still hold the larger probability for a row, and a condition on the whole batch makes the label of one row depend on the others" % early["k"].lower(), fn_loc(fn, early.get("ln")))
+        else:
+            res.ok()
         res.instance("%s : running arg-max" % key)
         found = False
         for n in walk(fn["body"]):
